@@ -367,6 +367,8 @@ Section Sim.
   Hypothesis Hl2 : L id2 = Some (SApp d args2).
   Hypothesis He1 : entry_of defs L r (SApp d args1) t1.
   Hypothesis He2 : entry_of defs L r (SApp d args2) t2.
+  Hypothesis Hr1 : resolve r id1 = Some t1.
+  Hypothesis Hr2 : resolve r id2 = Some t2.
 
   Let pl := sd_params sd.
   Let P1 := params_from_scale_info (t_params t1).
@@ -605,5 +607,125 @@ Section Sim.
         rewrite Hres. cbn [bind fst snd].
         destruct (IHts (fun c' Hc' => Hts c' (or_intror Hc')) st' es1' es2' Hr1 Hr2 A B) as (st'' & Hres' & A' & B' & C'); [lia|].
         exists st''. split; [exact Hres'|]. split; [exact A'|]. split; [exact B'|]. lia.
+  Qed.
+
+  (** ** the fields of the two entries *)
+  Let G1 : glist := [(0%nat, Eof P1); (0%nat, [])].
+  Let G2 : glist := [(0%nat, Eof P2); (0%nat, [])].
+
+  Lemma GL_base (P : list tparam_ir) : GL [(0%nat, Eof P); (0%nat, [])] P.
+  Proof. exists []. split; [constructor|reflexivity]. Qed.
+
+  Lemma name_idx (P : list tparam_ir) nm :
+    index_for_type_name [(0%nat, Eof P); (0%nat, [])] nm = position (fun p => String.eqb (tpi_orig p) nm) P.
+  Proof.
+    cbn [index_for_type_name]. unfold Eof. rewrite position_map. cbn [snd position].
+    destruct (position (fun p => String.eqb (tpi_orig p) nm) P); reflexivity.
+  Qed.
+
+  Definition fuel_ok (fuel : nat) (st : vstate) : Prop := (List.length r + 1 <= fuel + List.length (fst st))%nat.
+
+  Lemma sim_field fuel sf f1 f2 st :
+    In sf (def_sfields sd) ->
+    field_of defs L pnames args1 sf f1 -> field_of defs L pnames args2 sf f2 ->
+    Inv st -> vgood r st -> fuel_ok fuel st ->
+    good_res st (compare_fields_with (fun x y st0 => teq r fuel x G1 y G2 st0) G1 G2 f1 f2 st).
+  Proof.
+    intros Hin (Hn1 & Hlab1 & Htn1) (Hn2 & Hlab2 & Htn2) HI Hv Hfu.
+    destruct (field_PP sf Hin) as (HPP & Htn & Hca). rewrite Htn in Htn1, Htn2.
+    unfold lab in Hlab1, Hlab2. rewrite Hca in Hlab1, Hlab2. cbv zeta in Hlab1, Hlab2.
+    change (L (f_ty f1) = Some (cs args1 (sf_ty sf))) in Hlab1.
+    change (L (f_ty f2) = Some (cs args2 (sf_ty sf))) in Hlab2.
+    unfold compare_fields_with. rewrite Hn1, Hn2, opt_str_eqb_refl. cbn [negb]. cbv zeta. rewrite Htn1, Htn2.
+    unfold G1, G2. rewrite (idx_GL _ P1 _ (GL_base P1)), (idx_GL _ P2 _ (GL_base P2)).
+    destruct (is_param (sf_ty sf)) eqn:Ep.
+    - destruct (sf_ty sf) as [i| | | | | | | | | | | | | | |] eqn:Ety; try discriminate Ep.
+      destruct HPP as (_ & _ & _ & _ & Hlv). destruct (Hlv i (spine_self _)) as (nm & Hi).
+      destruct (pos_pair i nm _ _ Hi Hlab1 Hlab2) as (k & Hk1 & Hk2 & Enm & k' & Hk').
+      rewrite Hk1, Hk2, !name_idx. cbn [render]. unfold pnames. rewrite (nth_map_fst _ _ _ _ _ Hi).
+      rewrite <- Enm, Hk'. cbn [opt_nat_eqb]. rewrite Nat.eqb_refl. apply good_res_refl; assumption.
+    - pose proof HPP as (_ & _ & Hgd1 & _).
+      rewrite (pos_none_good _ _ Hgd1 Ep Hlab1).
+      apply (sim (src_size (sf_ty sf)) (sf_ty sf) (le_n _) HPP fuel (f_ty f1) (f_ty f2)); auto using GL_base.
+  Qed.
+
+  Lemma sim_fields fuel : forall fs fl1 fl2 st,
+    (forall sf, In sf fs -> In sf (def_sfields sd)) ->
+    Forall2 (field_of defs L pnames args1) fs fl1 -> Forall2 (field_of defs L pnames args2) fs fl2 ->
+    Inv st -> vgood r st -> fuel_ok fuel st ->
+    good_res st (fields_equal_with (fun x y st0 => teq r fuel x G1 y G2 st0) G1 G2 fl1 fl2 st).
+  Proof.
+    intros fs fl1 fl2 st Hin H1 H2 HI Hv Hfu. unfold fields_equal_with.
+    rewrite <- (F2_length _ _ _ H1), <- (F2_length _ _ _ H2), Nat.eqb_refl. cbn [negb].
+    revert fl1 fl2 st H1 H2 HI Hv Hfu. induction fs as [|sf fs IH]; intros fl1 fl2 st H1 H2 HI Hv Hfu.
+    - inversion H1; subst. inversion H2; subst. cbn [all2]. apply good_res_refl; assumption.
+    - inversion H1 as [|? f1 ? fl1' Hf1 Hr1']; subst. inversion H2 as [|? f2 ? fl2' Hf2 Hr2']; subst. cbn [all2].
+      destruct (sim_field fuel sf f1 f2 st (Hin sf (or_introl eq_refl)) Hf1 Hf2 HI Hv Hfu) as (st' & Hres & A & B & C).
+      rewrite Hres. cbn [bind fst snd].
+      destruct (IH (fun sf' H => Hin sf' (or_intror H)) fl1' fl2' st' Hr1' Hr2' A B) as (st'' & Hres' & A' & B' & C').
+      { unfold fuel_ok in *. lia. }
+      exists st''. split; [exact Hres'|]. split; [exact A'|]. split; [exact B'|]. lia.
+  Qed.
+
+  (** C04_instantiations_stay / C03 completeness on the fragment: the two instantiations are
+      judged equal *)
+  Theorem teq_instantiations : types_equal_res r id1 id2 = Ok true.
+  Proof.
+    unfold types_equal_res. rewrite teq_S. destruct (N.eqb id1 id2); [reflexivity|].
+    cbv zeta. cbn [fst snd mem_N existsb negb Bool.eqb andb]. rewrite Hr1, Hr2.
+    unfold glist_empty at 1 2. cbn [index_for_type_id position opt_nat_eqb].
+    destruct (ent_inv defs L r d sd args1 Hsd t1 He1) as (Hp1 & _ & _ & Hb1).
+    destruct (ent_inv defs L r d sd args2 Hsd t2 He2) as (Hp2 & _ & _ & Hb2).
+    fold pnames in Hb1, Hb2.
+    rewrite Hp1, Hp2, path_eqb_refl. cbn [negb]. rewrite !params_len. fold P1 P2.
+    rewrite (F2_length _ _ _ P_paired), Nat.eqb_refl. cbn [negb].
+    assert (EG1 : glist_extend glist_empty (t_params t1) = G1).
+    { unfold glist_extend, glist_empty. rewrite extend_entries. reflexivity. }
+    assert (EG2 : glist_extend glist_empty (t_params t2) = G2).
+    { unfold glist_extend, glist_empty. rewrite extend_entries. reflexivity. }
+    rewrite EG1, EG2.
+    set (st0 := ([id1], [id2]) : vstate).
+    assert (HI0 : Inv st0).
+    { exists [], [], []. repeat split; constructor. }
+    assert (Hv0 : vgood r st0).
+    { split; cbn [fst snd]; (apply good_cons; [apply good_nil| |reflexivity]); eapply labelled_in_reg; eauto. }
+    assert (Hfu0 : fuel_ok (S (List.length r)) st0) by (unfold fuel_ok; cbn [st0 fst List.length]; lia).
+    unfold teq_def. unfold def_sfields in *.
+    destruct (sd_body sd) as [fs|vs] eqn:Eb.
+    - destruct Hb1 as (fl1 & -> & Hf1). destruct Hb2 as (fl2 & -> & Hf2).
+      destruct (sim_fields (S (List.length r)) fs fl1 fl2 st0) as (st' & Hres & _); auto.
+      { intros sf Hsf. unfold def_sfields. rewrite Eb. exact Hsf. }
+      rewrite Hres. reflexivity.
+    - destruct Hb1 as (vl1 & -> & Hv1). destruct Hb2 as (vl2 & -> & Hv2).
+      rewrite <- (F2_length _ _ _ Hv1), <- (F2_length _ _ _ Hv2), Nat.eqb_refl. cbn [negb].
+      assert (Hall : forall vs' vl1' vl2' st,
+                (forall v, In v vs' -> In v vs) ->
+                Forall2 (fun (v : string * N * list sfield) (vr : variant) =>
+                           v_name vr = fst (fst v) /\ v_index vr = snd (fst v) /\
+                           Forall2 (field_of defs L pnames args1) (snd v) (v_fields vr)) vs' vl1' ->
+                Forall2 (fun (v : string * N * list sfield) (vr : variant) =>
+                           v_name vr = fst (fst v) /\ v_index vr = snd (fst v) /\
+                           Forall2 (field_of defs L pnames args2) (snd v) (v_fields vr)) vs' vl2' ->
+                Inv st -> vgood r st -> fuel_ok (S (List.length r)) st ->
+                good_res st
+                  (all2 (fun x y st1 =>
+                           if String.eqb (v_name x) (v_name y)
+                           then fields_equal_with (fun x0 y0 st2 => teq r (S (List.length r)) x0 G1 y0 G2 st2) G1 G2
+                                                  (v_fields x) (v_fields y) st1
+                           else Ok (false, st1)) vl1' vl2' st)).
+      { induction vs' as [|v vs' IH]; intros vl1' vl2' st Hin H1 H2 HI Hv Hfu.
+        - inversion H1; subst. inversion H2; subst. cbn [all2]. apply good_res_refl; assumption.
+        - inversion H1 as [|? x ? vl1'' (Hn1 & _ & Hfx) Hr1']; subst.
+          inversion H2 as [|? y ? vl2'' (Hn2 & _ & Hfy) Hr2']; subst. cbn [all2].
+          rewrite Hn1, Hn2, String.eqb_refl.
+          destruct (sim_fields (S (List.length r)) (snd v) (v_fields x) (v_fields y) st) as (st' & Hres & A & B & C); auto.
+          { intros sf Hsf. unfold def_sfields. rewrite Eb. apply in_flat_map. exists v.
+            split; [apply Hin; left; reflexivity|exact Hsf]. }
+          rewrite Hres. cbn [bind fst snd].
+          destruct (IH vl1'' vl2'' st' (fun v' H => Hin v' (or_intror H)) Hr1' Hr2' A B) as (st'' & Hres' & A' & B' & C').
+          { unfold fuel_ok in *. lia. }
+          exists st''. split; [exact Hres'|]. split; [exact A'|]. split; [exact B'|]. lia. }
+      destruct (Hall vs vl1 vl2 st0 (fun v H => H) Hv1 Hv2 HI0 Hv0 Hfu0) as (st' & Hres & _).
+      rewrite Hres. reflexivity.
   Qed.
 End Sim.
